@@ -370,13 +370,17 @@ func c20iTable() [256]operation {
 	return t
 }
 
-//verif:opt unwind=16 budget_s=900 split=16
+//verif:opt unwind=16 budget_s=900 thorough.budget_s=3000 split=16 thorough.split=64
 func H_C20_interpreter_loop_survives_any_fee_protocol_run() {
 	evm := &EVM{Issued: make(chan bool, 1)}
 	in := &Interpreter{evm: evm, cfg: Config{JumpTable: c20iTable()}}
 	evm.interpreter = in
 	code := []byte{byte(verifCase(4)), byte(verifCase(4)), byte(verifCase(4)), 0}
 	gas := uint64(verifNondetUint8())
+	if verifThorough() {
+		code = []byte{byte(verifCase(4)), byte(verifCase(4)), byte(verifCase(4)), byte(verifCase(4)), 0}
+		gas = uint64(verifNondetUint16())
+	}
 	contract := NewContract(AccountRef(c20Caller), AccountRef(c20Contract), new(big.Int), gas)
 	a := c20Contract
 	contract.SetCallCode(&a, common.Hash{0x01}, code)
